@@ -328,7 +328,7 @@ class C10(Prop):
         changed = write_if_changed(LEAN / "Operon" / "Gen" / "GatesConsts.lean", text)
         from ..extract import py2lean_gates
         return [{"id": "E5-gates", "facts_changed": bool(changed),
-                 "facts_unrecognised": text.count(":= none")}] + py2lean_gates.run(REPO, LEAN, write_if_changed)
+                 "facts_unrecognised": text.count(":= none")}] + py2lean_gates.run(REPO, LEAN, write_if_changed, self.MB, self.IN)
 
     # ----------------------------------------------------------------------------------------------------------
     # helpers
@@ -1049,6 +1049,7 @@ class C10(Prop):
         blocked_before = {}
         epoch_blocked = []            # (content, blocking signatures) scan-blocked since the last relaxing op
         adaptive = True
+        n_calls = n_blocked = 0
         for idx, (line, o) in enumerate(zip(lines, obs)):
             t = line.split(" ")
             op = t[0]
@@ -1056,6 +1057,7 @@ class C10(Prop):
                 thr, rate, adaptive = int(t[1]), (None if t[2] == "none" else int(t[2])), t[3] == "1"
                 sigs, learned = [self._parse_sig(x) for x in t[4:]], {}
                 audit, now, allowed_times, blocked_before, epoch_blocked = 0, 0, [], {}, []
+                n_calls = n_blocked = 0
             elif op == "adv":
                 now += int(t[1])
             elif op in ("thr", "thrattr"):
@@ -1086,6 +1088,15 @@ class C10(Prop):
                 content = dec(t[1])
                 f = o.split(" ")
                 audit += 1
+                n_calls += 1
+                if o.startswith("raise:hook:") or o.startswith("0 "):
+                    n_blocked += 1
+                if not o.startswith("raise:") or o.startswith("raise:hook:"):
+                    # the counters the gate publishes are complete, also when the user's hook raised
+                    want = [f"tf={n_calls}", f"tb={n_blocked}"]
+                    got = [x for x in f if x.startswith(("tf=", "tb="))]
+                    if got != want:
+                        out.append(Violation("bookkeeping_complete", " ".join(want), " ".join(got), idx))
                 hk = f[-1][3:] if f[-1].startswith("hk=") else "-"
                 if hk != "-":
                     # while the hook runs, the decision it is told about is already in the audit trail
